@@ -1001,7 +1001,7 @@ int main(int argc, char** argv) {
   if (!ARGS.opt("--single-item").empty()) { fn(atoll(ARGS.opt("--single-item").c_str()), 0); fprintf(stderr, "states=%lld trans=%lld solves=%lld spans=%lld viol=%lld\n", counter(CNT_STATES), counter(CNT_TRANS), counter(CNT_SOLVES), counter(CNT_SPANS), counter(CNT_VIOL)); return 0; }
   GUARD_S = atof(ARGS.opt("--guard-s", "0.05").c_str()); CONFIRM_S = atof(ARGS.opt("--confirm-s", "1.0").c_str());
   violcap().cap = atoi(ARGS.opt("--cap", "5").c_str());
-  int step_timeout = atoi(ARGS.opt("--step-timeout", "10").c_str());
+  int step_timeout = atoi(ARGS.opt("--step-timeout", "90").c_str());   // wall clock, last resort only: divergence is caught by the CPU-time guards
   pool().run(nitems, ARGS.jobs, fn, cf, ARGS, step_timeout);
   bool complete = counter(CNT_SKIPPED) == 0 && counter(CNT_REFCRASH) == 0;
   std::vector<std::string> samples;
